@@ -31,6 +31,7 @@ class RawFlexRayConfig(BaseModel):
 
     @field_validator(
         "rx_queue_size",
+        "channel_no",
         mode="before",
     )
     def auto_int(cls, v: str) -> int:
